@@ -2,8 +2,10 @@
 package lock
 
 import (
+	"reflect"
 	"slices"
 	"time"
+	"unsafe"
 )
 
 type VerifLock struct {
@@ -17,11 +19,27 @@ type VerifLock struct {
 // VerifTable is a snapshot of the lock table (every shard), for the three-view comparison.
 func (m *Manager) VerifTable() []VerifLock {
 	out := []VerifLock{}
+	// the idle clock: read from the field when it is a time.Time; a tree that keeps it in another
+	// representation still has to compile, so then the public listing (Manager.Locks) supplies it
+	var public map[string]time.Time
+	if f, ok := reflect.TypeOf(ManagedLock{}).FieldByName("lastAccessed"); !ok || f.Type != reflect.TypeOf(time.Time{}) {
+		public = map[string]time.Time{}
+		for _, li := range m.Locks() {
+			public[li.Name] = li.LastAccessed
+		}
+	}
+	last := func(l *ManagedLock) time.Time {
+		if public != nil {
+			return public[l.Name]
+		}
+		f := reflect.ValueOf(l).Elem().FieldByName("lastAccessed")
+		return *(*time.Time)(unsafe.Pointer(f.UnsafeAddr()))
+	}
 	for _, shard := range m.shards {
 		shard.RLock()
 		for name, l := range shard.locks {
 			l.keyMtx.Lock()
-			out = append(out, VerifLock{Name: name, Size: l.size, Keys: slices.Clone(l.keys), LastAccessed: l.lastAccessed, Deleted: l.deleted})
+			out = append(out, VerifLock{Name: name, Size: l.size, Keys: slices.Clone(l.keys), LastAccessed: last(l), Deleted: l.deleted})
 			l.keyMtx.Unlock()
 		}
 		shard.RUnlock()
